@@ -29,9 +29,20 @@ def shards(tier):
 def strategy(shard):
     @st.composite
     def case(draw):
-        cfg = draw(nonneg.config(shard["family"], min_N=3))
+        near = draw(st.integers(0, 3)) == 0 and not (shard["family"].endswith("-inf") or shard["family"] in ("km", "kw"))
+        cfg = draw(nonneg.config(shard["family"], min_N=3, max_N=14 if near else 60))
         N = cfg["N"]
-        x = draw(nonneg.sample(cfg, min_size=2, max_size=40))
+        if near:
+            # a small population sampled (almost) to exhaustion, good draws first: the point at which the null becomes
+            # certain (S_k + (N-k)u < N t) is then reached while the history may still be below 1
+            u, t = cfg["u"], cfg["t"]
+            amax = max(1, int(N * t / u))
+            a = draw(st.one_of(st.sampled_from([amax, amax, max(1, amax - 1)]), st.integers(1, amax)))
+            head = [u] * a + [draw(st.sampled_from([u / 2, u / 4, t, 0.0])) for _ in range(draw(st.integers(0, 2)))]
+            x = (head + [draw(st.sampled_from([0.0, 0.0, 0.0, u / 8])) for _ in range(N)])[: draw(st.integers(max(2, N - 2), N))]
+            x = [float(v) for v in x]
+        else:
+            x = draw(nonneg.sample(cfg, min_size=2, max_size=40))
         if len(x) < 2:
             x = x + [draw(nonneg._value(cfg["u"], cfg["t"]))]
         k = draw(st.integers(1, len(x) - 1))
@@ -117,6 +128,11 @@ def evaluate(case, out):
         else:
             out.expect(a == b, "truncation-changes-last-entry-iid", lambda: (a, b, k))
     # (b') the truncation relation at every cut point (the boundary draw at which the null becomes certain is a single index)
+    if N is not None:
+        for kk in range(1, len(x) + 1):
+            if math.fsum(x[:kk]) + (N - kk) * cfg["u"] < N * t * (1 - 1e-9) and not math.isnan(hx[kk - 1]) and hx[kk - 1] < 1:
+                out.cls("null-certain-at-a-cut-while-history<1")
+                break
     try:
         for kk in range(1, len(x)):
             if kk == k:
